@@ -138,6 +138,14 @@ def make_cases(rng, n):
                 alt = rng.choice([c for c in codec.CHARSET if c != want[j]])
                 bad = want[:j] + alt + want[j + 1:]
                 add('bech32-decode %s' % bad, 'bech32-decode:corrupt', lambda so, se, p=p: None if se.strip() and p.hex() not in so else 'corrupted string not rejected: %s | %s' % (so[:60], se[:60]))
+                # a single character in the other case makes the string mixed-case: invalid wherever it is (hrp, data part, checksum)
+                letters = [k for k, ch in enumerate(want) if ch.isalpha()]
+                j = rng.choice(letters)
+                mixed = want[:j] + want[j].upper() + want[j + 1:]
+                add('bech32-decode %s' % mixed, 'bech32-decode:mixed-case', lambda so, se, p=p: None if se.strip() and p.hex() not in so else 'mixed-case string not rejected: %s | %s' % (so[:60], se[:60]))
+                j = rng.choice(letters)
+                mixed = want.upper()[:j] + want[j] + want.upper()[j + 1:]
+                add('bech32-decode %s' % mixed, 'bech32-decode:mixed-case', lambda so, se, p=p: None if se.strip() and p.hex() not in so else 'mixed-case string not rejected: %s | %s' % (so[:60], se[:60]))
         elif which == 8:
             h160 = rb(rng, 20)
             spk = bytes([OP_DUP, OP_HASH160, 20]) + h160 + bytes([OP_EQUALVERIFY, OP_CHECKSIG])
